@@ -481,7 +481,13 @@ def _elt_dtor(docs, out):
         raise ExtractError("%s: expected exactly one thread_.join(), found %d" % (what, len(joins)))
     inside = joins[0] in list(_flat(test.then))
     top_if = [s for s in sts if s.tag == "if" and joins[0] in s.then]
-    independent = (not inside) and (joins[0] in sts or (len(top_if) == 1 and mentions(top_if[0].cond, "started")))
+    def only_started(cond):
+        try:
+            return Tr({"thread_.started()": "started"}).expr(cond) == "started"
+        except ExtractError:
+            return False
+    independent = (not inside) and (joins[0] in sts or (len(top_if) == 1 and only_started(top_if[0].cond)
+                                                        and len(top_if[0].then) == 1 and not top_if[0].els))
     if not inside and not independent:
         raise ExtractError("%s: thread_.join() is guarded by something the translator does not follow" % what)
     if not inside and any(s.tag == "lock" for s in sts):
